@@ -6,10 +6,9 @@ import (
 	"reflect"
 	"regexp"
 	"sort"
-	"strconv"
 	"strings"
 
-	"github.com/xelaj/mtproto/internal/encoding/tl"
+	"github.com/xelaj/mtproto/zverif/audit"
 	"github.com/xelaj/mtproto/zverif/bridge"
 	ts "github.com/xelaj/mtproto/zverif/ref/tlschema"
 	"github.com/xelaj/mtproto/zverif/wk"
@@ -17,162 +16,22 @@ import (
 
 func init() { wk.Register("c13static", c13static) }
 
-var tObject = reflect.TypeOf((*tl.Object)(nil)).Elem()
-
-// kindOK says whether Go type g can be the translation of schema type t.
-func c13kindOK(t *ts.TypeExpr, g reflect.Type, s *ts.Schema) (bool, string) {
-	if t.Vector {
-		if g.Kind() != reflect.Slice || g == reflect.TypeOf([]byte{}) {
-			return false, "vector must be a slice"
-		}
-		return c13kindOK(t.Elem, g.Elem(), s)
-	}
-	switch t.Name {
-	case "int":
-		return g.Kind() == reflect.Int32, "int must be int32"
-	case "long":
-		return g.Kind() == reflect.Int64, "long must be int64"
-	case "double":
-		return g.Kind() == reflect.Float64, "double must be float64"
-	case "string":
-		return g.Kind() == reflect.String, "string must be string"
-	case "bytes":
-		return g == reflect.TypeOf([]byte{}), "bytes must be []byte"
-	case "Bool", "true":
-		return g.Kind() == reflect.Bool, "Bool/true must be bool"
-	case "int128":
-		return g == reflect.TypeOf(&tl.Int128{}), "int128 must be *tl.Int128"
-	case "int256":
-		return g == reflect.TypeOf(&tl.Int256{}), "int256 must be *tl.Int256"
-	case "Object", "!X", "X":
-		return g == tObject, "Object/!X must be tl.Object"
-	}
-	cs := s.ByResult[t.Name]
-	if t.Bare {
-		if d := s.ByName[t.Name]; d != nil {
-			cs = []*ts.Def{d}
-		}
-	}
-	if len(cs) == 0 {
-		return false, "schema type " + t.Name + " has no constructors"
-	}
-	var gts []reflect.Type
-	for _, c := range cs {
-		gt, ok := bridge.Objects[c.ID]
-		if !ok {
-			return false, "constructor " + c.Name + " not registered"
-		}
-		gts = append(gts, gt)
-	}
-	switch g.Kind() {
-	case reflect.Uint32: // enum: every constructor is a value of this very type
-		for _, gt := range gts {
-			if gt != g {
-				return false, fmt.Sprintf("enum field type %v but constructor type %v", g, gt)
-			}
-		}
-		return true, ""
-	case reflect.Ptr:
-		if len(gts) == 1 && gts[0] == g {
-			return true, ""
-		}
-		return false, fmt.Sprintf("pointer field %v does not match the constructors of %s", g, t.Name)
-	case reflect.Interface:
-		if g == tObject {
-			return false, "boxed type " + t.Name + " translated to the catch-all tl.Object"
-		}
-		for _, gt := range gts {
-			if !gt.Implements(g) {
-				return false, fmt.Sprintf("%v does not implement %v", gt, g)
-			}
-		}
-		return true, ""
-	}
-	return false, fmt.Sprintf("boxed type %s translated to %v", t.Name, g)
-}
-
-var reTag = regexp.MustCompile(`^flag:(\d+)(,encoded_in_bitflags)?$`)
-
-// c13compare: one definition against its Go type.
+// c13compare: one definition against its Go type (shared audit), strict or informational.
 func c13compare(c *wk.Ctx, idx int, d *ts.Def, s *ts.Schema, gt reflect.Type, strict bool) {
-	viol := func(kind, detail string) {
+	if crc := ts.CanonicalCRC(d.Line, s); crc != d.ID {
+		c.Viol("C13", idx, "schema-crc/"+d.Name, fmt.Sprintf("%s: written id %#08x, CRC-32 of the canonical line %#08x", d.Name, d.ID, crc), d.Line)
+	}
+	if HandCodec[d.Name] {
+		c.Count("hand_codec."+d.Name, 1)
+	}
+	audit.Compare(d, s, gt, audit.Registry(bridge.Objects), HandCodec[d.Name], func(kind, detail string) {
 		if strict {
 			c.Viol("C13", idx, kind+"/"+d.Name, d.Name+": "+detail, d.Line)
 		} else {
 			c.Count("informational."+kind, 1)
 			c.Note("informational", d.Name+": "+kind+": "+detail)
 		}
-	}
-	if gt.Kind() == reflect.Uint32 {
-		if len(d.NonFlagParams()) != 0 {
-			viol("layout", "registered as an enum value but the schema line has parameters")
-		}
-		o := reflect.ValueOf(d.ID).Convert(gt).Interface().(tl.Object)
-		if o.CRC() != d.ID {
-			viol("id", fmt.Sprintf("CRC() %#08x, schema %#08x", o.CRC(), d.ID))
-		}
-		return
-	}
-	if gt.Kind() != reflect.Ptr || gt.Elem().Kind() != reflect.Struct {
-		if HandCodec[d.Name] {
-			c.Count("hand_codec."+d.Name, 1)
-			return
-		}
-		viol("layout", fmt.Sprintf("registered type %v is not a struct pointer", gt))
-		return
-	}
-	obj := reflect.New(gt.Elem()).Interface().(tl.Object)
-	if obj.CRC() != d.ID {
-		viol("id", fmt.Sprintf("CRC() %#08x, schema says %#08x", obj.CRC(), d.ID))
-	}
-	if crc := ts.CanonicalCRC(d.Line, s); crc != d.ID {
-		viol("schema-crc", fmt.Sprintf("written id %#08x, CRC-32 of the canonical line %#08x", d.ID, crc))
-	}
-	if HandCodec[d.Name] {
-		c.Count("hand_codec."+d.Name, 1)
-		return
-	}
-	nf := d.NonFlagParams()
-	st := gt.Elem()
-	if st.NumField() != len(nf) {
-		viol("layout", fmt.Sprintf("%d struct fields, %d parameters", st.NumField(), len(nf)))
-		return
-	}
-	for i, p := range nf {
-		f := st.Field(i)
-		if ok, why := c13kindOK(p.Type, f.Type, s); !ok {
-			viol("field-type", fmt.Sprintf("parameter %d %s:%s is field %s %v: %s", i, p.Name, p.Type, f.Name, f.Type, why))
-		}
-		tag := f.Tag.Get("tl")
-		if p.FlagBit < 0 {
-			if tag != "" {
-				viol("flag-bit", fmt.Sprintf("unconditional parameter %s has tag %q", p.Name, tag))
-			}
-			continue
-		}
-		m := reTag.FindStringSubmatch(tag)
-		if m == nil {
-			viol("flag-bit", fmt.Sprintf("parameter %s:flags.%d has tag %q", p.Name, p.FlagBit, tag))
-			continue
-		}
-		bit, _ := strconv.Atoi(m[1])
-		if bit != p.FlagBit {
-			viol("flag-bit", fmt.Sprintf("parameter %s is flags.%d in the schema, flag:%d in Go", p.Name, p.FlagBit, bit))
-		}
-		if (m[2] != "") != (p.Type.Name == "true") {
-			viol("flag-bit", fmt.Sprintf("parameter %s:%s encoded_in_bitflags=%v", p.Name, p.Type, m[2] != ""))
-		}
-	}
-	fp := d.FlagsPos()
-	fg, has := obj.(tl.FlagIndexGetter)
-	switch {
-	case fp >= 0 && !has:
-		viol("flags-position", "schema has flags:# but the type has no FlagIndex()")
-	case fp < 0 && has:
-		viol("flags-position", "type has FlagIndex() but the schema has no flags word")
-	case fp >= 0 && fg.FlagIndex() != fp:
-		viol("flags-position", fmt.Sprintf("FlagIndex() = %d, flags:# is parameter %d", fg.FlagIndex(), fp))
-	}
+	})
 }
 
 func c13static(c *wk.Ctx) {
